@@ -27,7 +27,7 @@ RULE = ('families: connect = op history on a fresh Headers object (valid extensi
 ASSUMPTIONS = ['sim network = class-constant overrides only (max_target 2^255-1, mined genesis, generated checkpoint for chunk 0)',
                'reference retarget rule transcribed from lbrycrd src/lbry.cpp with exact integer arithmetic; cross-checked on the 20 real main-net headers',
                'a crash is modelled by its effect on the file (cut at byte b / header bytes overwritten); the real close() writes the whole buffer in place']
-REQUIRED_HITS = ['V1.valid_batch_stored', 'V2.invalid_batch_checked', 'V2.rule.link', 'V2.rule.bits', 'V2.rule.pow', 'V2.rule.genesis',
+REQUIRED_HITS = ['V1.valid_batch_stored', 'V2.invalid_batch_checked', 'V2.rule.link', 'V2.rule.bits', 'V2.rule.pow', 'V2.rule.genesis', 'V2.bits_other_encoding_of_the_right_target',
                  'V3.chain_validated', 'V4.genuine', 'V4.overlong_reply', 'V4.mismatch', 'V4.uncheckpointed', 'V5.retarget_checked', 'V5.clamp_low', 'V5.clamp_high',
                  'op.fork', 'op.fork_shorter_than_old_tail', 'op.extend_stale_tail', 'op.split', 'op.reconnect', 'op.beyond_tip', 'mainnet.accepted', 'mainnet.alteration_rejected',
                  'W.cut_checked', 'W.overwrite_checked', 'W.cut_mid_header', 'W.damage.tip', 'W.damage.interior', 'W.damage.deep_below_tip', 'W.real_persist', 'W.session_reopened', 'W.session_closed', 'W.session_fork_below_size_at_open']
@@ -349,7 +349,18 @@ async def _fam_connect(rec, case):
                     hdr = R.unpack(good[pos])
                     which = r.choice(['wrong-bits-right-pow', 'right-bits-insufficient-pow'])
                     if which == 'wrong-bits-right-pow':
-                        wrong = R.target_to_compact(target) + r.choice([1, -1, 1 << 24])
+                        canon = R.target_to_compact(target)
+                        how = r.choice(['+1', '-1', 'exp+1', 'sign-flag', 'sign-flag', 'denormalised'])
+                        if how == 'sign-flag':
+                            # another 32-bit value that DECODES to the demanded target: "exactly the bits the rule demands" is an
+                            # equality of the field, as in consensus (seeded break C07-H compared decoded-and-re-encoded values)
+                            wrong = canon | 0x00800000
+                        elif how == 'denormalised' and (canon & 0xff) == 0 and (canon >> 24) < 0x21:
+                            wrong = (((canon >> 24) + 1) << 24) | ((canon & 0x007fffff) >> 8)
+                        else:
+                            wrong = canon + {'+1': 1, '-1': -1}.get(how, 1 << 24)
+                        if R.compact_to_target(wrong) == R.compact_to_target(canon) and wrong != canon:
+                            rec.hit('V2.bits_other_encoding_of_the_right_target')
                         good[pos] = R.mine(hdr['version'], hdr['prev'], hdr['merkle'], hdr['claimtrie'], hdr['timestamp'], wrong,
                                            min(target, R.compact_to_target(wrong)))
                     else:
